@@ -26,6 +26,9 @@ type Solver struct {
 	witness *witness
 	Witnessed int
 	Restarts  int
+	ValueTimeouts int
+	bsol      *Solver // solver process for the non-Real part of split queries
+	splitB    []*Term // the independently solved non-Real part of the last query (see Check); its model is fetched on demand
 	aux     *Solver
 	bin     string
 	stack   []*Term
@@ -132,6 +135,7 @@ func (s *Solver) Check(ts []*Term) string {
 	}
 	t0 := time.Now()
 	s.witness = nil
+	s.splitB = nil
 	// syntactic contradiction: an assertion and its negation
 	ids := make(map[int]bool, len(seq))
 	for _, t := range seq {
@@ -152,6 +156,32 @@ func (s *Solver) Check(ts []*Term) string {
 		}
 	}
 	if anyReal && os.Getenv("SYMGO_NOWITNESS") == "" {
+		// theory split: assertions over Reals (with their Boolean structure) and assertions without any Real term that share
+		// no variable are independent, so the conjunction is satisfiable iff both parts are. The Real part is tried with the
+		// explicit-witness search, the rest goes to the solver as usual; its model values complete the witness.
+		rp, bp := splitByVars(seq)
+		if len(bp) > 0 && len(rp) > 0 {
+			// the non-Real part has its own solver process, so that each process keeps an assertion stack whose prefixes are shared
+			// from query to query (alternating the two parts on one stack re-asserts everything every time)
+			if s.bsol == nil {
+				s.bsol = NewSolver(s.bin)
+			}
+			rb := s.bsol.Check(bp)
+			s.bsol.Done()
+			s.Queries++
+			if rb == "unsat" {
+				s.Unsat++
+				return "unsat"
+			}
+			if rb == "sat" {
+				s.Sat++
+				rr := s.Check(rp) // witness search first, then the solver on the Real part alone (where the nlsat tactic applies)
+				if rr == "sat" {
+					s.splitB = bp // the values of the other part's variables are fetched only if a model is asked for (Values)
+				}
+				return rr
+			}
+		}
 		if w := tryWitness(seq); w != nil {
 			s.witness = w
 			s.Queries++
@@ -285,6 +315,35 @@ func parseRat(v string) (string, bool) {
 }
 
 func (s *Solver) Values(ts []*Term) []uint64 {
+	res := s.valuesCurrent(ts)
+	if bp := s.splitB; bp != nil {
+		// the non-Real part was solved on its own: solve it again and take the values of its variables from that model
+		s.splitB = nil
+		inB := map[int]bool{}
+		var vs []*Term
+		for _, t := range bp {
+			leafVars(t, inB, &vs)
+		}
+		var ask []*Term
+		var idx []int
+		for i, t := range ts {
+			if t.op == "var" && t.w >= 0 && inB[t.id] {
+				ask = append(ask, t)
+				idx = append(idx, i)
+			}
+		}
+		if len(ask) > 0 && s.bsol != nil && s.bsol.Check(bp) == "sat" {
+			vb := s.bsol.valuesCurrent(ask)
+			s.bsol.Done()
+			for k, i := range idx {
+				res[i] = vb[k]
+			}
+		}
+	}
+	return res
+}
+
+func (s *Solver) valuesCurrent(ts []*Term) []uint64 {
 	res := make([]uint64, len(ts))
 	if s.witness != nil {
 		for i, t := range ts {
@@ -318,7 +377,13 @@ func (s *Solver) Values(ts []*Term) []uint64 {
 			s.defineUpTo()
 		}
 		s.send("(get-value (" + t.ref() + "))")
-		l := s.readLine()
+		l := s.readAnswer() // model evaluation over algebraic numbers can run away too: same wall-clock limit as a check-sat
+		if l == "unknown-walltime" {
+			// the solver was restarted: no model any more. The remaining values stay zero; a counterexample built from them is
+			// replayed natively before it is reported, so a wrong value cannot turn into a false alarm.
+			s.ValueTimeouts++
+			return res
+		}
 		if strings.HasPrefix(l, "(error") {
 			panic("solver error in get-value: " + l)
 		}
@@ -353,7 +418,7 @@ func (s *Solver) Values(ts []*Term) []uint64 {
 	return res
 }
 
-func (s *Solver) Done() { s.lastSat = false; s.witness = nil }
+func (s *Solver) Done() { s.lastSat = false; s.witness = nil; s.splitB = nil }
 
 func (s *Solver) Close() { s.in.Close(); s.cmd.Wait() }
 
@@ -425,4 +490,82 @@ func (s *Solver) auxUnsat(ts []*Term) bool {
 	}
 	a.send("(pop 1)")
 	return r == "unsat"
+}
+
+
+func leafVars(t *Term, seen map[int]bool, out *[]*Term) {
+	if seen[t.id] {
+		return
+	}
+	seen[t.id] = true
+	if t.op == "var" {
+		*out = append(*out, t)
+		return
+	}
+	for _, a := range t.args {
+		leafVars(a, seen, out)
+	}
+}
+
+func disjointVars(a, b []*Term) bool {
+	var va, vb []*Term
+	sa, sb := map[int]bool{}, map[int]bool{}
+	for _, t := range a {
+		leafVars(t, sa, &va)
+	}
+	for _, t := range b {
+		leafVars(t, sb, &vb)
+	}
+	in := map[int]bool{}
+	for _, v := range va {
+		in[v.id] = true
+	}
+	for _, v := range vb {
+		if in[v.id] {
+			return false
+		}
+	}
+	return true
+}
+
+
+// splitByVars: the assertions connected (through shared variables, transitively) to an assertion that mentions a Real term,
+// and the rest. The two groups share no variable.
+func splitByVars(seq []*Term) (rp, bp []*Term) {
+	vars := make([][]*Term, len(seq))
+	byVar := map[int][]int{}
+	for i, t := range seq {
+		leafVars(t, map[int]bool{}, &vars[i])
+		for _, v := range vars[i] {
+			byVar[v.id] = append(byVar[v.id], i)
+		}
+	}
+	inR := make([]bool, len(seq))
+	var work []int
+	for i, t := range seq {
+		if usesReal(t) {
+			inR[i] = true
+			work = append(work, i)
+		}
+	}
+	for len(work) > 0 {
+		i := work[len(work)-1]
+		work = work[:len(work)-1]
+		for _, v := range vars[i] {
+			for _, j := range byVar[v.id] {
+				if !inR[j] {
+					inR[j] = true
+					work = append(work, j)
+				}
+			}
+		}
+	}
+	for i, t := range seq {
+		if inR[i] {
+			rp = append(rp, t)
+		} else {
+			bp = append(bp, t)
+		}
+	}
+	return
 }
